@@ -11,6 +11,10 @@ from ..tlvcheck import AUTH, CTL, FLT, MSG, Aligner, extracted, finish_with_erro
 
 
 def check(model: Model, run: Run) -> None:
+    # rules that read the writers directly come first: they give their verdict even when a writer has a shape the grammar
+    # extractor cannot follow
+    purity(model, run, None)
+    written_as_held(model, run)
     ex = extracted(model)
     run.explanation = ("sibling cross-check of the two implementations of each type: the TLV grammar the writer can emit and the grammar the reader accepts are both "
                        "extracted by abstract interpretation; every emitted component must be accepted by the reader at that point (by position for mandatory "
@@ -179,8 +183,7 @@ def check(model: Model, run: Run) -> None:
     # a nested writer emits what was written into it, in that order, under the tag it was opened with
     from .c07 import constructed_flush
     constructed_flush(model, run)
-    # ---- purity of the writers (re-encoding is byte-identical) ------------------------------------------
-    purity(model, run, ex)
+    # ---- purity of the writers (re-encoding is byte-identical): checked first, see above ------------------
     post_decode_mutation(model, run)
     seen = set()
     for rule, cls, key, line, msg, func in al.findings:
@@ -262,6 +265,62 @@ def default_choices(model: Model, base: str) -> List[str]:
                             if q in model.functions and not isinstance(model.functions[q].node, ast.Lambda):
                                 out += [x.id for x in ast.walk(model.functions[q].node) if isinstance(x, ast.Name) and model.resolve_name(c.module, x.id) in model.classes]
     return out
+
+
+def written_as_held(model: Model, run: Run) -> None:
+    """W16: what a writer iterates over, or hands to a write call, is the field as the object holds it - never a filtered,
+    sliced, sorted or de-duplicated derivative of it.  Elements that are dropped or reordered on the way out cannot be
+    recovered by any decoder."""
+    LOSSY_CALLS = {"filter", "sorted", "set", "frozenset", "reversed"}
+    n = 0
+    for cq, c in model.classes.items():
+        for mname in ("pack", "_pack_inner", "get_value"):
+            fi = c.methods.get(mname)
+            if fi is None:
+                continue
+            n += 1
+            binds: Dict[str, List[ast.expr]] = {}
+            for a in walk_no_nested(fi.node):
+                if isinstance(a, (ast.Assign, ast.AnnAssign)) and a.value is not None:
+                    for t_ in (a.targets if isinstance(a, ast.Assign) else [a.target]):
+                        if isinstance(t_, ast.Name):
+                            binds.setdefault(t_.id, []).append(a.value)
+
+            def from_field(e: ast.expr) -> bool:
+                return any(isinstance(x, ast.Attribute) and isinstance(x.value, ast.Name) and x.value.id == "self" for x in ast.walk(e))
+
+            def lossy(e: ast.expr, depth: int = 0):
+                """a sub-expression of e that drops / reorders elements of a field, or None"""
+                if depth > 3:
+                    return None
+                for x in ast.walk(e):
+                    if isinstance(x, (ast.ListComp, ast.GeneratorExp, ast.SetComp)) and any(g.ifs for g in x.generators) and any(from_field(g.iter) or
+                            (isinstance(g.iter, ast.Name) and any(from_field(b) for b in binds.get(g.iter.id, []))) for g in x.generators):
+                        return x
+                    if isinstance(x, ast.Call) and isinstance(x.func, ast.Name) and x.func.id in LOSSY_CALLS and x.args and \
+                            (from_field(x.args[-1]) or (isinstance(x.args[-1], ast.Name) and any(from_field(b) for b in binds.get(x.args[-1].id, [])))):
+                        return x
+                    if isinstance(x, ast.Subscript) and isinstance(x.slice, ast.Slice) and (x.slice.lower is not None or x.slice.upper is not None or x.slice.step is not None) and \
+                            (from_field(x.value) or (isinstance(x.value, ast.Name) and any(from_field(b) for b in binds.get(x.value.id, [])))):
+                        return x
+                if isinstance(e, ast.Name):
+                    for b in binds.get(e.id, []):
+                        r = lossy(b, depth + 1)
+                        if r is not None:
+                            return r
+                return None
+            bad = None
+            for x in walk_no_nested(fi.node):
+                if isinstance(x, ast.For):
+                    bad = bad or lossy(x.iter)
+                elif isinstance(x, ast.Call) and isinstance(x.func, ast.Attribute) and x.func.attr.startswith("write_") and x.args:
+                    bad = bad or lossy(x.args[0])
+            run.ob("W16-fields-written-as-held", bad is None, {"method": fi.qualname.split("sansldap.")[-1]})
+            if bad is not None:
+                run.fail(Finding("W16-fields-written-as-held", fi.qualname, norm(bad)[:80],
+                                 f"{fi.qualname.split('sansldap.')[-1]} writes `{norm(bad)[:70]}`, a filtered / cut / reordered copy of a field: what is left out or moved "
+                                 "does not come back when the bytes are decoded", model.loc(fi.module, bad)))
+    run.floor("writer methods checked for lossy sources", n, 25)
 
 
 def purity(model: Model, run: Run, ex) -> None:
